@@ -228,15 +228,25 @@ def build(family, seed):
     raise ValueError(family)
 
 
+def edit_candidates(circ):
+    from py4hw.base import has_method
+    objs = circ.objs()
+    return [p for p, o in objs.items() if len(o.children) > 0 and not o.isPrimitive() and not has_method(o, 'structureName')]
+
+
+def edit_target(circ):
+    """the structural object the NEXT apply_edit will extend (deterministic in the circuit and its edit count)"""
+    cands = edit_candidates(circ)
+    return cands[(circ.seed + 3 * circ.edits) % len(cands)]
+
+
 def apply_edit(circ):
-    """a legal edit of the circuit between two requests: one more block (and wire) in a structural object.
-    Deterministic in (circuit, number of edits so far), so a rebuilt copy can follow."""
+    """a legal edit of the circuit between two requests: one more block (and wire) in a structural object that is
+    not a shared structure.  Deterministic in (circuit, number of edits so far), so a rebuilt copy can follow."""
     py4hw = common.quiet_import()
     objs = circ.objs()
-    from py4hw.base import has_method
-    cands = [p for p, o in objs.items() if len(o.children) > 0 and not o.isPrimitive() and not has_method(o, 'structureName')]
     k = circ.edits
-    path = cands[(circ.seed + 3 * k) % len(cands)]
+    path = edit_target(circ)
     par = objs[path]
     wires = [pt.wire for ch in par.children.values() for pt in ch.inPorts + ch.outPorts
              if isinstance(pt.wire, py4hw.Wire)] + [pt.wire for pt in par.inPorts if isinstance(pt.wire, py4hw.Wire)]
